@@ -29,6 +29,7 @@ condition:
 from __future__ import annotations
 
 import ast
+import re
 import copy
 
 PURE_CALLS = {'len', 'int', 'float', 'min', 'max', 'abs', 'bool', 'str', 'tuple', 'range', 'isinstance'}
@@ -1614,6 +1615,16 @@ def _sort_arms(fn):
         arms[-1].orelse = tail
 
 
+_LOCAL_RE = re.compile(r'\bv\d+\b')
+
+
+def _anon_key(st):
+    """Sort key that does not depend on how the locals are numbered (they are named v<k> by _alpha, in order of first occurrence - which the
+    order of the statements being sorted would otherwise feed back into): the text with every local anonymised first, the full text second."""
+    t = _txt(st)
+    return (_LOCAL_RE.sub('_', t), t)
+
+
 def _sort_independent(fn):
     """Adjacent simple statements without any dependence between them are put into text order."""
     for _o, _f, body in list(_blocks(fn)):
@@ -1623,7 +1634,7 @@ def _sort_independent(fn):
             for i in range(n - 1):
                 a, b = body[i], body[i + 1]
                 if isinstance(a, (ast.Assign, ast.AugAssign)) and isinstance(b, (ast.Assign, ast.AugAssign)) \
-                        and _txt(a) > _txt(b) and _independent(a, b):
+                        and _anon_key(a) > _anon_key(b) and _independent(a, b):
                     body[i], body[i + 1] = b, a
                     swapped = True
             if not swapped:
